@@ -160,7 +160,13 @@ def _home():
         base = base or tempfile.gettempdir()
         _HOME = tempfile.mkdtemp(prefix='gnupghome-', dir=base)
         os.chmod(_HOME, 0o700)
-        atexit.register(lambda: shutil.rmtree(_HOME, ignore_errors=True))
+        def _cleanup():
+            try:
+                subprocess.run(['gpgconf', '--homedir', _HOME, '--kill', 'all'], stdout=subprocess.DEVNULL, stderr=subprocess.DEVNULL, timeout=20)
+            except Exception:
+                pass
+            shutil.rmtree(_HOME, ignore_errors=True)
+        atexit.register(_cleanup)
     return _HOME
 
 
